@@ -219,8 +219,22 @@ Definition validate_kind (k : vkind) (v : pv) : res unit :=
                    | PList l => if forallb (choice_mem cs) l then Ok tt else Err EValue
                    | _ => if choice_mem cs v then Ok tt else Err EValue
                    end
+  (* in_choices(cs, False): `isinstance(value, list) is not False` -> ValueError *)
+  | VChoiceStr cs => match v with
+                     | PList _ => Err EValue
+                     | _ => if choice_mem cs v then Ok tt else Err EValue
+                     end
+  (* in_choices(cs, True): the value must be a list of choices *)
+  | VChoiceList cs => match v with
+                      | PList l => if forallb (choice_mem cs) l then Ok tt else Err EValue
+                      | _ => Err EValue
+                      end
   | VUnknown _ => Err EOracleMiss
   end.
+
+(* the choice list of the three in_choices validators *)
+Definition choices_of (k : vkind) : option (list string) :=
+  match k with VChoices cs | VChoiceStr cs | VChoiceList cs => Some cs | _ => None end.
 
 Fixpoint validate_registry_header (reg : list hparam) (h : pv) (check_required : bool) : res unit :=
   match reg with
@@ -548,6 +562,13 @@ Definition jws_deserialize_json (g : guards) (P : prims) (reg : jws_reg) (ka : k
 (* ------------------------------------------------------------------ *)
 (* rfc7797/json.py                                                      *)
 (* ------------------------------------------------------------------ *)
+(* rfc7797/json.py:_extract_json: `if "protected" in value: _check_unprotected_header(header)`
+   (`if header and "b64" in header: raise ValueError`) *)
+Definition check_unprotected_header (has_protected : bool) (h : pv) : res unit :=
+  if has_protected && py_truth h then
+    do b <- py_in (PS "b64") h; if b then Err EValue else Ok tt
+  else Ok tt.
+
 Definition r7797_deserialize_json (g : guards) (P : prims) (reg0 reg7 : jws_reg) (ka : keyarg) (value : pv)
   : res bytes :=
   do general <- py_in (PS "signatures") value;
@@ -561,6 +582,7 @@ Definition r7797_deserialize_json (g : guards) (P : prims) (reg0 reg7 : jws_reg)
         if g_dict_7797_json g && negb (is_dict p) then Err (EJose DecodeError) else Ok p   (* fix01 *)
       else Ok PNone);
   do header <- py_get_str value (SK "header");
+  do _ <- check_unprotected_header hasp header;
   do headers <- member_headers protected header;
   do has <- py_in (PS "b64") headers;
   if negb has then jws_deserialize_json g P reg0 ka value else
